@@ -15,13 +15,19 @@
      destination filter - hence a registered, open subscriber of the type or of all types at that moment -, is
      followed on that connection by exactly the published payload, at most ONE copy goes to any connection, and a
      message with an out-of-range destination module or host is copied to nobody.
+   - C01_healthy_served (the liveness half, UNCONDITIONAL about everybody else): a subscriber of the type (or of all
+     types) at that moment that can accept data, passes the filter and whose own sends do not fail gets EXACTLY ONE
+     copy - one whole frame, the published header with only msg_count stamped, the published payload - whatever happens
+     to the other recipients, to the notice subscribers, at whatever nesting depth, and is still registered, open and
+     subscribed afterwards.  C01_service_total: at a reachable state with nesting budget 2 * modules + 2 this holds
+     for what run() does with a ready data frame, with no termination hypothesis at all.
    - What happens to a recipient that is NOT writable or whose send fails is C14's subject
      (C01_deliver_decision is the three-way decision shared with it).
    The same statements are decided against the implementation by the model correspondence and the spec
    oracle of vlib/mgr_oracles.py (check_C01). *)
 From Coq Require Import ZArith List Bool Lia.
 From Mgr Require Import Gen.MgrDefs Model.Manager Proofs.RegInv Proofs.Frame Proofs.RegTraverse Proofs.RegTop
-                        Proofs.Connect Proofs.StepInv Proofs.Routing Proofs.OutInv Proofs.C05Inv Proofs.Hoare Proofs.Exact Proofs.ExactTop Proofs.LoopExact Proofs.OnlyRecipients.
+                        Proofs.Connect Proofs.StepInv Proofs.Routing Proofs.OutInv Proofs.C05Inv Proofs.Hoare Proofs.Exact Proofs.ExactTop Proofs.LoopExact Proofs.OnlyRecipients Proofs.HealthyServed.
 Import ListNotations.
 Open Scope Z_scope.
 
@@ -149,3 +155,33 @@ Proof. intros h p s suf [A B C D]. auto. Qed.
 
 Definition C01_only_recipients_ex := only_recipients_ex.
 Definition C01_only_recipients_ex_invalid := only_recipients_ex_invalid.
+
+(* ---- the liveness half, unconditional about everybody else ---- *)
+Theorem C01_healthy_served : forall cfg fuel es u s (k : nat) h p c s',
+  run cfg fuel es = Ok u s -> h_extra h <> 0 -> h_type h <> ALL_MESSAGE_TYPES ->
+  bad_dest_mod (h_dst_mod h) = false -> bad_dest_host (h_dst_host h) = false ->
+  In c (snapshot s (h_type h)) -> zmem c (wl s) = true -> eligible (h_dst_mod h) s c = true ->
+  flookup c (faults s) = None ->
+  forward cfg k h p s = Ok tt s' ->
+  exists suf, out s' = out s ++ suf /\ served_once h p c suf /\ still_healthy c s s'.
+Proof. exact healthy_recipient_served_reachable. Qed.
+
+Theorem C01_service_total : forall cfg fuel es u s FUEL c0 h ip c,
+  run cfg fuel es = Ok u s -> (2 * length (mods s) + 2 <= FUEL)%nat ->
+  m_reg (find_mod c0 (mods s)) = true -> bad_size (h_nbytes h) = false ->
+  data_type (h_type h) -> h_extra h <> 0 -> h_type h <> ALL_MESSAGE_TYPES ->
+  bad_dest_mod (h_dst_mod h) = false -> bad_dest_host (h_dst_host h) = false ->
+  In c (snapshot s (h_type h)) -> zmem c (wl s) = true -> eligible (h_dst_mod h) s c = true ->
+  flookup c (faults s) = None ->
+  exists s' suf, service cfg FUEL c0 (IFrame h ip) s = Ok tt s' /\
+                 out s' = out s ++ suf /\ served_once h (data_payload h ip) c suf /\ still_healthy c s s'.
+Proof. exact service_healthy_served_total. Qed.
+
+Theorem C01_served_once_meaning : forall h p c suf, served_once h p c suf ->
+  (exists a n b, suf = a ++ [(c, OHdr (set_count h n)); (c, OPay p)] ++ b /\
+                 filter (same_item h) (proj c a) = [] /\ filter (same_item h) (proj c b) = []) /\
+  length (filter (same_item h) (proj c suf)) = 1%nat.
+Proof. intros h p c suf H. exact H. Qed.
+
+Definition C01_healthy_served_ex := healthy_served_ex.
+Definition C01_healthy_served_ex_monitor_fails := healthy_served_ex_monitor_fails.
